@@ -30,16 +30,24 @@ def recent {κ} [DecidableEq κ] : List κ → List κ
   | [] => []
   | k :: older => k :: (recent older).erase k
 
-/-- The documented LRU discipline for one call with key `k` after the history `histRev` (newest first). -/
-def expectEv {κ} [DecidableEq κ] (cap : Nat) (histRev : List κ) (k : κ) : Ev :=
-  if k ∈ (recent histRev).take cap then .hit
-  else if (recent histRev).length < cap ∨ cap = 0 then .miss
+/-- The documented LRU discipline on the list `r` of distinct keys used so far, most recently used first:
+    hit iff `k` is among the first `cap` of them. -/
+def evOn {κ} [DecidableEq κ] (cap : Nat) (r : List κ) (k : κ) : Ev :=
+  if k ∈ r.take cap then .hit
+  else if r.length < cap ∨ cap = 0 then .miss
   else .missEvict
 
-/-- … for a whole sequence of calls (`histRev` = what was asked before, newest first). -/
-def expectEvs {κ} [DecidableEq κ] (cap : Nat) : List κ → List κ → List Ev
+/-- … for one call with key `k` after the history `histRev` (newest first). -/
+def expectEv {κ} [DecidableEq κ] (cap : Nat) (histRev : List κ) (k : κ) : Ev := evOn cap (recent histRev) k
+
+def expectEvsOn {κ} [DecidableEq κ] (cap : Nat) : List κ → List κ → List Ev
   | _, [] => []
-  | h, k :: ks => expectEv cap h k :: expectEvs cap (k :: h) ks
+  | r, k :: ks => evOn cap r k :: expectEvsOn cap (k :: r.erase k) ks
+
+/-- … for a whole sequence of calls (`histRev` = what was asked before, newest first); computed incrementally:
+    `expectEvs cap h (k :: ks) = expectEv cap h k :: expectEvs cap (k :: h) ks` (lemma `expectEvs_cons`). -/
+def expectEvs {κ} [DecidableEq κ] (cap : Nat) (histRev : List κ) (ks : List κ) : List Ev :=
+  expectEvsOn cap (recent histRev) ks
 
 /-- `lru` operation: the answers are those of the un-memoised function `f` and the hit/miss/evict pattern
     is the documented one. -/
